@@ -114,7 +114,7 @@ Example history_leaves_state :
   snd (check 50 s_init 5) = Err (CheckErr 2) /\
   to_check (fst (check 50 s_init 5)) <> [] /\
   snd (fst (compile 50 s_init 3)) = Err (TraceErr 4) /\
-  const_ctr (exec 50 hist s_init) = 6 /\ tmp_ctr (exec 50 hist s_init) = 23.
+  const_ctr (exec 50 hist s_init) = 5 /\ tmp_ctr (exec 50 hist s_init) = 22.
 Proof. repeat split; vm_compute; try reflexivity; discriminate. Qed.
 (* ... and the compile after it is a successful, non-empty package equal up to renumbering *)
 Example history_example :
